@@ -463,5 +463,125 @@ def run(ctx):
         coverage_report(ctx, sources, spec)
 
 
+VARIED_MACROS = ["CYTHON_USE_PYLONG_INTERNALS", "CYTHON_USE_UNICODE_INTERNALS", "CYTHON_USE_PYLIST_INTERNALS", "CYTHON_VECTORCALL",
+                 "CYTHON_METH_FASTCALL", "CYTHON_FAST_PYCALL", "CYTHON_AVOID_BORROWED_REFS", "CYTHON_ASSUME_SAFE_MACROS",
+                 "CYTHON_ASSUME_SAFE_SIZE", "CYTHON_USE_TYPE_SLOTS", "CYTHON_USE_TYPE_SPECS", "CYTHON_FAST_THREAD_STATE",
+                 "CYTHON_USE_EXC_INFO_STACK", "CYTHON_COMPILING_IN_LIMITED_API", "CYTHON_LIMITED_API", "Py_LIMITED_API",
+                 "CYTHON_COMPRESS_STRINGS", "CYTHON_COMPILING_IN_CPYTHON", "CYTHON_UNPACK_METHODS", "CYTHON_USE_UNICODE_WRITER"]
+COV_CELLS = ["base", "no_internals_at_all", "limited_api", "avoid_borrowed_unsafe_macros", "no_vectorcall"]
+# helper families whose macro-guarded lines the corpus must keep executing (fraction of executable guarded lines, per
+# coverage cell in which the family is compiled); error exits (`return NULL`) are what is left
+COV_FLOORS = {"__Pyx_PyObject_CompareFloatInt": 0.85, "__Pyx_PyObject_CompareIntFloat": 0.85, "__Pyx_PyObject_CompareIntInt": 0.85}
+
+
+def parse_gcov(path):
+    """-> {function: [guarded executable lines, executed among them, guarded two-way branches, of which both ways taken]},
+    a line being guarded when an enclosing #if / #elif / #else group names a macro the matrix varies"""
+    import re
+    stack = []          # one entry per open #if: True if its condition (or an earlier branch of it) names a varied macro
+    per = {}
+    cur = "<file scope>"
+    last_guarded = False
+    br = []
+    names = re.compile("|".join(VARIED_MACROS))
+
+    def flush_branches():
+        if br and last_guarded and len(br) == 2:
+            e = per.setdefault(cur, [0, 0, 0, 0])
+            e[2] += 1
+            if all(b for b in br):
+                e[3] += 1
+        del br[:]
+    for line in open(path, errors="replace"):
+        if line.startswith("function "):
+            flush_branches()
+            cur = line.split()[1]
+            continue
+        if line.startswith("branch"):
+            br.append("never" not in line and "taken 0%" not in line)
+            continue
+        if line.startswith("call"):
+            continue
+        parts = line.split(":", 2)
+        if len(parts) < 3:
+            continue
+        flush_branches()
+        cnt, src = parts[0].strip(), parts[2]
+        st = src.strip()
+        if st.startswith("#"):
+            d = st[1:].strip()
+            if d.startswith("if"):
+                # (the whole file sits in the #else of `#ifndef Py_PYTHON_H ... #elif <version / limited api> #error`)
+                stack.append(None if "Py_PYTHON_H" in d else bool(names.search(d)))
+            elif d.startswith("elif"):
+                if stack and stack[-1] is not None:
+                    stack[-1] = stack[-1] or bool(names.search(d))
+            elif d.startswith("endif"):
+                if stack:
+                    stack.pop()
+            last_guarded = False
+            continue
+        last_guarded = any(stack)
+        if cnt == "-" or not last_guarded:
+            continue
+        e = per.setdefault(cur, [0, 0, 0, 0])
+        e[0] += 1
+        if not (cnt.startswith("#") or cnt.startswith("=")):
+            e[1] += 1
+    flush_branches()
+    return per
+
+
 def coverage_report(ctx, sources, spec):
-    pass
+    """thorough tier: which executable lines inside macro-guarded regions of the generated C does the corpus execute?
+    The three modules are rebuilt with gcc --coverage -O0 in a few cells, the whole corpus is run, gcov output is
+    attributed to functions.  Evidence (extra.guarded_coverage) + floors for the helper families in COV_FLOORS."""
+    import subprocess, re
+    t0 = time.time()
+    allc = {c["name"]: c for c in cells(False)}
+    cs = []
+    for n in COV_CELLS:
+        c = dict(allc[n]); c["name"] = "cov_" + n; c["cflags"] = ["-O0", "--coverage"]; c.pop("compiler", None)
+        cs.append(c)
+    status = build_matrix(ctx, cs, sources, jobs=12)
+    report, worst = {}, {}
+
+    def run_cell(c):
+        wd = os.path.join(ctx.workdir, c["name"])
+        mods = [m for m in ("c39ops", "c39x") if not status[c["name"]].get(m)]
+        if not status[c["name"]].get("c39m"):
+            cybuild.call_cases(wd, [["m." + f, a] for f, a in CALLS], setup="import c39m as m", alarm=60)
+        run_worker(ctx, wd, dict(spec, modules=mods), "cov")
+        out = {}
+        for m in list(mods) + ([] if status[c["name"]].get("c39m") else ["c39m"]):
+            gcno = [f for f in os.listdir(wd) if f.endswith("-%s.gcno" % m)]
+            if not gcno:
+                continue
+            subprocess.run(["gcov", "-b", "-o", ".", gcno[0]], cwd=wd, capture_output=True, text=True, timeout=900)
+            g = os.path.join(wd, m + (".cpp" if c["cplus"] else ".c") + ".gcov")
+            if os.path.exists(g):
+                out[m] = parse_gcov(g)
+        return c["name"], out
+    with cf.ThreadPoolExecutor(max_workers=len(cs)) as ex:
+        for name, out in ex.map(run_cell, cs):
+            tot = {}
+            for m, per in out.items():
+                gl = sum(v[0] for v in per.values()); ge = sum(v[1] for v in per.values())
+                gb = sum(v[2] for v in per.values()); gbb = sum(v[3] for v in per.values())
+                tot[m] = {"guarded_lines": gl, "executed": ge, "guarded_branches": gb, "both_ways": gbb,
+                          "functions_with_guarded_lines": sum(1 for v in per.values() if v[0]),
+                          "functions_fully_unexecuted": sum(1 for v in per.values() if v[0] and not v[1])}
+                for fn, v in per.items():
+                    if v[0] >= 4 and v[1] < v[0]:
+                        worst.setdefault(name, []).append((v[0] - v[1], fn, m, v[0]))
+                    for fam, floor in COV_FLOORS.items():
+                        if fn.startswith(fam) and v[0]:
+                            ctx.count("guarded-coverage/%s/%s" % (name, fam), 1)
+                            if v[1] < floor * v[0]:
+                                ctx.corr_break("guarded-coverage:" + fam, {"cell": name, "function": fn, "module": m},
+                                               "%d of %d guarded lines executed" % (v[1], v[0]), ">= %d%%" % int(floor * 100))
+            report[name] = tot
+    ctx.extra["guarded_coverage"] = report
+    ctx.extra["guarded_coverage_least_covered"] = {k: ["%s (%s): %d of %d guarded lines not executed" % (fn, m, miss, n)
+                                                        for miss, fn, m, n in sorted(v, reverse=True)[:25]] for k, v in worst.items()}
+    ctx.extra["t_coverage_s"] = round(time.time() - t0, 1)
